@@ -1126,6 +1126,7 @@ var hbSpecs = map[string]hbSpec{
 	"hb4": {Sizes: []int{2, 2, 2}, Ages: []int{6, 7, 11}, Lags: []int{0, 1, 2}},
 	"hb5": {Sizes: []int{10, 6, 4, 4}, Ages: []int{7, 8, 9, 12}, Lags: []int{1, 2, 3, 14}},
 	"hb6": {Sizes: []int{14, 7, 5, 4}, Ages: []int{7, 7, 7, 7}, Lags: []int{0, 0, 0, 0}},
+	"hbt": {Sizes: []int{2, 2, 2, 2, 2}, Ages: []int{3, 4, 5, 6, 7}, Lags: []int{0, 0, 1, 0, 2}},
 	// stagnating populations of odd size: delta coding hands the whole population to the top one / two species
 	"hbd1": {Sizes: []int{7, 6}, Ages: []int{3, 4}, Lags: []int{0, 0}, Stagnant: true},
 	"hbd2": {Sizes: []int{6, 5, 4}, Ages: []int{7, 3, 2}, Lags: []int{1, 0, 0}, Stagnant: true},
